@@ -225,6 +225,17 @@ async fn client_step(log: &Log, port: u16, clients: &Shared, step: &Value, with_
                 }
                 None => (step["pid"].as_i64().unwrap_or(0) as i32, step["key"].as_i64().unwrap_or(0) as i32),
             };
+            // C10 (additive): "pid_of": client => that client's pid with the explicit (wrong) "key"
+            let (pid, key) = match step.get("pid_of").and_then(|x| x.as_str()) {
+                Some(of) => {
+                    let c = clients.lock().get(of).cloned();
+                    match c {
+                        Some(c) => (c.lock().await.pid, key),
+                        None => (pid, key),
+                    }
+                }
+                None => (pid, key),
+            };
             if let Some(mut c) = Client::connect(port).await {
                 let mut b = vec![];
                 b.extend(16i32.to_be_bytes());
